@@ -12,8 +12,8 @@ Record case := mk {
   ckind : kind;
   ckvs : list kv;               (* KSmall: the pairs written, in order *)
   ctext : bytes;                (* KMake: input of Make *)
-  chash : list (N * bytes);     (* observed spooky.Hash32 values: (hash, key) *)
-  chash_agree : bool;           (* writer-side streaming hash = reader-side Hash32 on every key *)
+  chash : list (N * bytes);     (* observed WRITER-side hash values (streaming spooky hasher): (hash, key) *)
+  chash_agree : bool;           (* the hash stored in the file with every record is that hash of its key *)
   cwrite_ok : bool;
   cqueries : list qobs;
   cwrappers_ok : bool;          (* Data, Reader.First, Reader.Exists agree with FindNext *)
